@@ -157,7 +157,7 @@ def run_parallel(
         n_runs = trials // n_tasks_per_input
 
         if i_task_in_input == n_tasks_per_input - 1:
-            n_runs += trials % n_runs
+            n_runs += trials % n_tasks_per_input
 
         filename = list_inputs[i_input]
         input_name = os.path.basename(filename)
